@@ -374,6 +374,15 @@ def ring_strip(n, half_width_deg=4.0):
     return Mesh(xyz, faces, {"family": "ring_strip", "n": n}, False)
 
 
+def capped_ring(k, cap_lat_deg=60.0):
+    """one k-gon (a polar cap bounded by the parallel cap_lat) over a ring of k quads: a face with very many corners (k >= 256:
+    counts beyond one byte) next to small ones, i.e. a table k wide that is almost all padding."""
+    lons = -180.0 + 360.0 * np.arange(k) / k
+    xyz = np.concatenate([ref.lonlat_to_xyz(lons, np.full(k, cap_lat_deg)), ref.lonlat_to_xyz(lons, np.full(k, cap_lat_deg - 8.0))])
+    faces = [list(range(k))] + [[k + i, k + (i + 1) % k, (i + 1) % k, i] for i in range(k)]
+    return Mesh(xyz, faces, {"family": "capped_ring", "k": k}, False)
+
+
 def cubed_sphere(ne):
     """Equiangular cubed sphere with shared nodes (closed quad mesh)."""
     t = np.tan(np.linspace(-math.pi / 4, math.pi / 4, ne + 1))
@@ -439,7 +448,12 @@ def snap(m, kind, idx=0):
         v = m.xyz[idx % m.n_node]
     else:
         v = ref.unit(m.xyz[m.faces[idx % m.n_face]].mean(axis=0))
-    if kind.endswith("npole"):
+    if kind.endswith("near_npole") or kind.endswith("near_spole"):
+        # 1e-3 .. 4e-3 rad (0.06 .. 0.23 degrees) away from the pole: outside the library's pole-snapping band, inside any wider one
+        c = 1e-3 * (1 + idx % 4)
+        lo = 0.7 + 1.3 * (idx % 5)
+        tgt = np.array([math.sin(c) * math.cos(lo), math.sin(c) * math.sin(lo), math.cos(c) * (1.0 if kind.endswith("npole") else -1.0)])
+    elif kind.endswith("npole"):
         tgt = np.array([0, 0, 1.0])
     elif kind.endswith("spole"):
         tgt = np.array([0, 0, -1.0])
@@ -651,6 +665,8 @@ def build(desc):
         m = refined(desc["n"], desc["seed"], desc["radius"])
     elif fam == "ring_strip":
         m = ring_strip(desc["n"])
+    elif fam == "capped_ring":
+        m = capped_ring(desc["k"])
     else:
         raise ValueError(fam)
     for key, val in desc.get("ops", []):
